@@ -232,6 +232,10 @@ def _counting_zip(fn, counter: list) -> None:
     class D(ast.NodeTransformer):
         def visit_Call(self, node):
             self.generic_visit(node)
+            # dict(a=X, b=Y)  ->  {"a": X, "b": Y}
+            if isinstance(node.func, ast.Name) and node.func.id == "dict" and not node.args and node.keywords and all(k.arg for k in node.keywords):
+                counter[0] += 1
+                return ast.copy_location(ast.Dict(keys=[ast.Constant(value=k.arg) for k in node.keywords], values=[k.value for k in node.keywords]), node)
             # list(map(F, X))  ->  [F(_v) for _v in X]
             if isinstance(node.func, ast.Name) and node.func.id == "list" and len(node.args) == 1 and not node.keywords:
                 m = node.args[0]
